@@ -37,7 +37,9 @@ namespace
         size_t         oom_amount = 0, bad_passed = 0, bad_supported = 0;
         const void *   oom_alloc = nullptr, *bad_alloc = nullptr;
         std::vector<std::pair<const void*, std::ptrdiff_t>> leaks;
-    } H;
+    };
+    // never destroyed: the library may call the leak handler during static destruction
+    Handlers& H = *new Handlers;
 
     void h_leak(const fm::allocator_info& i, std::ptrdiff_t amount)
     {
@@ -262,7 +264,7 @@ namespace
                  n_align8 = 0, n_position = 0, n_next_iter = 0, n_fill_new = 0, n_fill_free = 0,
                  n_probe_ok = 0, n_caps_checked = 0, n_unwind_blocks = 0, n_replayed = 0,
                  n_shrink_cached = 0, n_inj_fail = 0, n_nonmono_rel = 0, n_zombie_destroyed = 0,
-                 n_moves_2blocks = 0, n_destroy_live = 0;
+                 n_moves_2blocks = 0, n_destroy_live = 0, n_walks = 0;
         bool     last_was_release = false, saw_release_before_alloc = false;
         std::set<size_t> buckets_used;
         bool     array_and_node_live = false;
@@ -277,6 +279,8 @@ namespace
         std::ptrdiff_t model_net = 0; // C15: traits-level net bytes
         bool     moved_since_start = false;
         size_t   blocks_peak = 0;
+
+        bool trace = std::getenv("VF_TRACE") != nullptr;
 
         Runner(const Mode& m, const Program& p, CaseInfo& c) : mode(m), prog(p), ci(c) {}
 
@@ -858,6 +862,19 @@ namespace
             }
         }
 
+        // guarded hook (DESIGN.md section 10): the free list must be structurally sound after every
+        // operation: reachable nodes == capacity(), ordered, no cycle, caches inside the list
+        void check_structure(size_t size, const char* when)
+        {
+            if (failed || (s->fam != F_POOL && s->fam != F_COLL))
+                return;
+            size_t      reach = 0;
+            const char* err   = s->walk(size, reach);
+            if (err)
+                fail("structure", std::string("free list inconsistent ") + when + ": " + err);
+            ++n_walks;
+        }
+
         // full allocation op
         void op_alloc(const Op& op, bool array, bool want_try)
         {
@@ -874,6 +891,13 @@ namespace
             auto     b = snap(r.size);
             bool     threw;
             void*    p = do_alloc(r, threw);
+            if (trace)
+                std::fprintf(stderr, "  alloc %s iface=%d count=%zu size=%zu align=%zu -> %p%s\n",
+                             r.array ? "array" : "node", int(r.iface), r.count, r.size, r.align, p,
+                             threw ? " (threw)" : "");
+            if (failed)
+                return nullptr;
+            check_structure(r.size, "after an allocation attempt");
             if (failed)
                 return nullptr;
             if (!p)
@@ -904,6 +928,10 @@ namespace
             auto b = snap(l.req.size);
             unsigned inv0 = H.invalid;
             bool ok = true;
+            if (trace)
+                std::fprintf(stderr, "  release #%u %p %s iface=%d count=%zu size=%zu\n", l.id,
+                             static_cast<void*>(l.p), l.req.array ? "array" : "node",
+                             int(l.req.iface), l.req.count, l.req.size);
             if (l.req.iface == COMPOSABLE)
                 ok = s->try_dealloc(l.p, l.req);
             else
@@ -918,6 +946,9 @@ namespace
                 fail("false-report", "invalid-pointer handler fired on a valid release");
                 return;
             }
+            check_structure(l.req.size, "after a release");
+            if (failed)
+                return;
             ++n_release;
             last_was_release = true;
             if (fail_seq && l.seq < fail_seq)
@@ -1357,6 +1388,7 @@ namespace
             }
             n_ops_after_move = 0;
             ci.classes.insert("move");
+            check_structure(0, "after a move");
             markers.clear();
             iter_fullcap.clear();
             sweep("after move");
@@ -1855,6 +1887,7 @@ namespace
             if (n_destroy_live)
                 ci.classes.insert("destroy-live");
             ci.counters["excluded_by_known_finding"] += ctx.excluded;
+            ci.counters["structure_walks"] += n_walks;
             ci.counters["alloc_ok"] += n_alloc_ok;
             ci.counters["release"] += n_release;
             ci.counters["fail"] += n_fail;
@@ -1913,6 +1946,9 @@ namespace
                 return Verdict::pass(); // construction failed cleanly (e.g. virtual reservation)
             }
             ci.subject = s->name;
+            if (trace)
+                std::fprintf(stderr, "subject %s node_size=%zu block_size=%zu\n", s->name.c_str(),
+                             s->nominal_size(), ctx.block_size);
             if (s->fam == F_ITER)
                 iterN = s->iteration_info(2);
             if (mode.faults && P(7) % 4 != 0 && s->has_upstream)
@@ -1940,6 +1976,9 @@ namespace
                     break;
                 ++ci.effective_ops;
                 ++n_ops_after_move;
+                if (trace)
+                    std::fprintf(stderr, "op %s %u %u %u\n",
+                                 op.kind < K__count ? kind_names[op.kind] : "?", op.a, op.b, op.c);
                 switch (op.kind)
                 {
                 case K_alloc_node:
